@@ -17,6 +17,7 @@ var intrinsicNames = map[string]bool{
 	"math.Float32bits": true, "math.Float32frombits": true, "math.Float64bits": true, "math.Float64frombits": true,
 	"strings.Clone": true, "bytes.Clone": true,
 	"bytes.IndexByte": true, "internal/bytealg.IndexByte": true, "internal/bytealg.IndexByteString": true, "strings.IndexByte": true,
+	"internal/bytealg.Count": true, "internal/bytealg.CountString": true,
 	"(*sync.Pool).Get": true, "(*sync.Pool).Put": true,
 	"(*sync.Mutex).Lock": true, "(*sync.Mutex).Unlock": true, "(*sync.Mutex).TryLock": true,
 	"(*sync.RWMutex).Lock": true, "(*sync.RWMutex).Unlock": true, "(*sync.RWMutex).RLock": true, "(*sync.RWMutex).RUnlock": true,
@@ -91,7 +92,12 @@ func (e *Exec) intrinsic(name string, args []Value, fn *ssa.Function, fr *frame)
 	switch name {
 	case "fmt.Errorf":
 		return e.opaqueError()
-	case "fmt.Sprintf", "fmt.Sprint", "fmt.Sprintln", "strconv.Itoa", "strconv.FormatInt", "strconv.FormatUint", "strconv.Quote":
+	case "fmt.Sprintf":
+		if r, ok := e.concreteSprintf(args); ok {
+			return r
+		}
+		return e.opaqueStr()
+	case "fmt.Sprint", "fmt.Sprintln", "strconv.Itoa", "strconv.FormatInt", "strconv.FormatUint", "strconv.Quote":
 		return e.opaqueStr()
 	case "fmt.Printf", "fmt.Println", "fmt.Print", "fmt.Fprintf":
 		return Tuple{e.c64(0), &Iface{}}
@@ -159,6 +165,29 @@ func (e *Exec) intrinsic(name string, args []Value, fn *ssa.Function, fr *frame)
 			for i := n - 1; i >= 0; i-- {
 				b := e.elemAt(a, tc.Add(off, e.c64(i))).(*Term)
 				res = tc.Ite(tc.Eq(b, d), e.c64(i), res)
+			}
+		}
+		return res
+	case "internal/bytealg.Count", "internal/bytealg.CountString":
+		var base Loc
+		var off, ln *Term
+		switch x := args[0].(type) {
+		case *Slice:
+			base, off, ln = x.Base, x.Off, x.Len
+		case *Str:
+			if x.Opaque {
+				panic(unsupported{"Count of opaque string"})
+			}
+			base, off, ln = x.Base, x.Off, x.Len
+		}
+		n := e.concretize(ln, 0, e.job.MaxAlloc)
+		d := args[1].(*Term)
+		res := e.c64(0)
+		if n > 0 {
+			a := e.arrayAt(base)
+			for i := int64(0); i < n; i++ {
+				b := e.elemAt(a, tc.Add(off, e.c64(i))).(*Term)
+				res = tc.Add(res, tc.Ite(tc.Eq(b, d), e.c64(1), e.c64(0)))
 			}
 		}
 		return res
@@ -828,6 +857,59 @@ func (e *Exec) lookup(fr *frame, in *ssa.Lookup) Value {
 	panic(unsupported{fmt.Sprintf("lookup in %T", x)})
 }
 
+// concreteSprintf evaluates fmt.Sprintf natively when the format and every argument are concrete
+// plain strings or integers (no Stringer / error / composite arguments); anything else stays opaque.
+func (e *Exec) concreteSprintf(args []Value) (Value, bool) {
+	f, ok := args[0].(*Str)
+	if !ok {
+		return nil, false
+	}
+	format, ok := e.concreteString(f)
+	if !ok {
+		return nil, false
+	}
+	var goArgs []interface{}
+	if sl, ok := args[1].(*Slice); ok && sl.Base.Obj != nil {
+		if !sl.Len.IsConst() || !sl.Off.IsConst() {
+			return nil, false
+		}
+		a := e.arrayAt(sl.Base)
+		for i := 0; i < int(sl.Len.Val); i++ {
+			ifc, ok := a.E[int(sl.Off.Val)+i].(*Iface)
+			if !ok || ifc.T == nil {
+				return nil, false
+			}
+			if _, named := ifc.T.(*types.Named); named && types.NewMethodSet(ifc.T).Len() > 0 {
+				return nil, false // may implement Stringer / error
+			}
+			b, isBasic := ifc.T.Underlying().(*types.Basic)
+			if !isBasic {
+				return nil, false
+			}
+			switch v := ifc.V.(type) {
+			case *Str:
+				cs, ok := e.concreteString(v)
+				if !ok {
+					return nil, false
+				}
+				goArgs = append(goArgs, cs)
+			case *Term:
+				if !v.IsConst() || b.Info()&types.IsInteger == 0 {
+					return nil, false
+				}
+				if b.Info()&types.IsUnsigned != 0 {
+					goArgs = append(goArgs, v.Val)
+				} else {
+					goArgs = append(goArgs, v.SVal())
+				}
+			default:
+				return nil, false
+			}
+		}
+	}
+	return e.strLit(fmt.Sprintf(format, goArgs...)), true
+}
+
 type rangeIter struct {
 	m    *MapV
 	keys []Value
@@ -846,7 +928,21 @@ func (e *Exec) rangeInit(x Value, t types.Type) Value {
 		}
 		return it
 	case *Str:
-		panic(unsupported{"range over string"})
+		// ASCII strings of concrete length only: byte i is rune i (a byte >= 0x80 leaves the subset)
+		if v.Opaque {
+			panic(unsupported{"range over opaque string"})
+		}
+		n := e.concretize(v.Len, 0, e.job.MaxAlloc)
+		it := &rangeIter{str: v}
+		for i := int64(0); i < n; i++ {
+			b := e.strBytes(v, e.c64(i))
+			if ascii := e.tc.Ult(b, e.tc.Const(8, 0x80)); !ascii.IsTrue() && !e.branch(ascii) {
+				panic(unsupported{"range over a string with a possibly non-ASCII byte"})
+			}
+			it.keys = append(it.keys, e.c64(i))
+			it.vals = append(it.vals, e.tc.ZExt(b, 32))
+		}
+		return it
 	}
 	panic(unsupported{fmt.Sprintf("range over %T", x)})
 }
